@@ -54,6 +54,13 @@ RATES = {"24": Fraction(24), "25": Fraction(25), "30": Fraction(30), "50": Fract
 INT_RATES = ["24", "25", "30", "50", "60"]
 
 ASSUMPTIONS = [
+  "reading of `times move by less than one unit`: the times are the begin / end values the model holds, i.e. offsets from the parent's "
+  "begin; each is bounded, their sums are not: the absolute instant of a nested element may move by up to one unit per nesting level "
+  "(frames syntax rounds every offset up: p begin 0.75 f and span end 1.25 f at 30 fps come back as 1 f + 2 f, a whole frame later "
+  "than 2.0 f).  An absolute-time version of the round-trip contract refutes exactly there; it is not claimed as a violation because the "
+  "statement bounds each time, and `same snapshot at every time` can only be meant up to the written precision",
+  "round-trip proof: TokenRegex assumes a formatted value fills exactly its field (two-digit hours: times below 2^18 s; a wider value is "
+  "an unexplored path, reported as undecided if reachable) and that the reader's patterns treat all digits alike",
   "A-PY / A-SMT: pyvc's model of CPython int / Fraction arithmetic and f-string formatting of integers (a formatted number "
   "denotes its value); soundness of z3 / cvc5 `unsat` answers",
   "proof tier: times are rational, 0 <= t < 2^36 s; the text -> value direction uses the TTML rule (specs/imsc_rt.parse_written), "
